@@ -405,6 +405,33 @@ Section Proofs.
           try contradiction; destruct H as [H|[]]; discriminate.
   Qed.
 
+  (* C09: what a raising handler puts on the wire *)
+  Theorem handler_raises_ocpp c id action payload a r h p code d x :
+    lookup_route c action = Some (a, r) -> r_on r = Some h ->
+    (if eff_skip r then VAccept payload else validate tbl (c_ver c) MCall a payload) = VAccept p ->
+    binds (h_sig h) (c2s_keys p) = true ->
+    h_run h (c2s_keys p) (uid_for (h_sig h) id) = HRaiseOCPP code d x ->
+    handle_call tbl acts c id action payload =
+    [EvHandler (h_name h) (c2s_keys p) (uid_for (h_sig h) id); EvError id [code] (Some (d, x))].
+  Proof.
+    intros Hl Hon Hv Hb Hr. unfold handle_call. rewrite Hl, Hv, Hon, Hb. simpl.
+    unfold uid_for in Hr. rewrite Hr. reflexivity.
+  Qed.
+
+  (* any other exception: a fixed InternalError frame -- nothing of the exception is in it *)
+  Theorem handler_raises_other c id action payload a r h p :
+    lookup_route c action = Some (a, r) -> r_on r = Some h ->
+    (if eff_skip r then VAccept payload else validate tbl (c_ver c) MCall a payload) = VAccept p ->
+    binds (h_sig h) (c2s_keys p) = true ->
+    h_run h (c2s_keys p) (uid_for (h_sig h) id) = HRaiseOther ->
+    handle_call tbl acts c id action payload =
+    [EvHandler (h_name h) (c2s_keys p) (uid_for (h_sig h) id);
+     EvError id ["InternalError"%string] (Some ("An unexpected error occurred."%string, JObj []))].
+  Proof.
+    intros Hl Hon Hv Hb Hr. unfold handle_call. rewrite Hl, Hv, Hon, Hb. simpl.
+    unfold uid_for in Hr. rewrite Hr. reflexivity.
+  Qed.
+
   (* ---------- C16: only the route of the action itself matters ---------- *)
   Theorem route_scope c c' id action payload :
     c_ver c = c_ver c' -> lookup_route c action = lookup_route c' action ->
